@@ -2,8 +2,8 @@
 from checks import tracebase, waterfam
 
 PROP = "C04"
-MCS = {"quick": [("MC_Water.tla", "MC_Water_q1.cfg", 300)],
-       "thorough": [("MC_Water.tla", "MC_Water_q1.cfg", 300), ("MC_Water.tla", "MC_Water_q2.cfg", 900), ("MC_Water.tla", "MC_Water_t1.cfg", 1500)]}
+MCS = {"quick": [("MC_Water.tla", "MC_Water_q1.cfg", 1500)],
+       "thorough": [("MC_Water.tla", "MC_Water_q1.cfg", 1500), ("MC_Water.tla", "MC_Water_q2.cfg", 900), ("MC_Water.tla", "MC_Water_t1.cfg", 1500)]}
 
 
 def run(tier, seed):
